@@ -550,6 +550,33 @@ def run_case(case):
                     return out
                 if "syscall_crash:killed" in out.labels:
                     nt = True
+            if case.get("orderly_abort") and spec is not None and step == case["orderly_abort"][0] % len(case["ops"]):
+                # the update runs in a process of its own that is told to terminate after its k-th statement and shuts down in an
+                # orderly way (signal handler -> sys.exit -> interpreter teardown): the record is the previous or the new one
+                _close(store)
+                n_stmt = 1 + case["orderly_abort"][1] % 3
+                work = os.path.join(home, "orderly")
+                shutil.rmtree(work, ignore_errors=True)
+                shutil.copytree(dbdir, work)
+                rc, report = _run_in_other_process(os.path.join(work, "axolotl.db"), home, dict(spec, orderly_abort_after=n_stmt))
+                out.label("orderly_abort:" + ("terminated" if rc == 7 else "completed_first"))
+                problem = None
+                try:
+                    s2 = LiteAxolotlStore(os.path.join(work, "axolotl.db"))
+                    got = read_store(s2, P)
+                    _close(s2)
+                    d = compare(got, expect_of(before), own, allow)
+                    if d:
+                        problem = ("orderly_abort:%s:%s" % (kind, "record_missing" if "MISSING" in d else "record_differs"), {"after_statement": n_stmt, "diff": d[:300], "rc": rc})
+                except Exception as e:
+                    problem = ("orderly_abort:%s:store_does_not_open" % kind, {"error": repr(e)[:300]})
+                shutil.rmtree(work, ignore_errors=True)
+                store = LiteAxolotlStore(dbpath)
+                if problem:
+                    out.fail("crash", problem[0], dict(problem[1], step=step))
+                    return out
+                if rc == 7:
+                    nt = True
             if case.get("other_process") and spec is not None:
                 # the update is made by another process (the party restarted: a new interpreter, with its own hash seed) and read
                 # back here; no crash involved
@@ -649,6 +676,15 @@ def shrink_candidates(case):
         yield dict(case, ops=ops[:i] + ops[i + 1:])
 
 
+def _enum_orderly():
+    """a replacement of each replaceable record, the process told to terminate after the first / second statement of the update"""
+    for ops in ([["save_identity", 0, 0], ["save_identity", 0, 1]], [["store_session", 0, 0], ["store_session", 0, 1]],
+                [["store_sender_key", 0, 0, 0], ["store_sender_key", 0, 0, 1]], [["store_prekey"], ["store_prekey"], ["set_sent", [0, 1]]],
+                [["store_signed"], ["store_signed"], ["remove_signed", 0]]):
+        for k in (0, 1):
+            yield {"sub": "script", "crash": False, "orderly_abort": [len(ops) - 1, k], "ops": ops}
+
+
 def op_strategy():
     sel = st.integers(0, 5)
     return st.one_of(
@@ -738,10 +774,14 @@ def plan(tier):
                        st.lists(op_strategy(), min_size=1, max_size=14),
                        st.one_of(st.none(), st.none(), st.tuples(st.integers(0, 13), st.integers(0, 40)).map(list)))
     other = st.lists(op_strategy(), min_size=2, max_size=8).map(lambda ops: {"sub": "script", "crash": False, "other_process": True, "ops": ops})
+    orderly = st.tuples(st.lists(op_strategy(), min_size=2, max_size=8), st.integers(0, 7), st.integers(0, 2)).map(
+        lambda t: {"sub": "script", "crash": False, "orderly_abort": [t[1], t[2]], "ops": t[0]})
     return {
         "shards": 16,
-        "enumerations": [("basic_scripts", _enum_basic), ("syscall_crash_sweep", _enum_syscall_crash), ("other_process_basic", _enum_other_process)],
-        "strategies": [("scripts", script, 60 if quick else 1500), ("updates_by_another_process", other, 4 if quick else 60)],
+        "enumerations": [("basic_scripts", _enum_basic), ("syscall_crash_sweep", _enum_syscall_crash), ("other_process_basic", _enum_other_process),
+                         ("orderly_termination_basic", _enum_orderly)],
+        "strategies": [("scripts", script, 60 if quick else 1500), ("updates_by_another_process", other, 4 if quick else 60),
+                       ("orderly_termination_in_mid_update", orderly, 6 if quick else 100)],
         "shrink": "ddmin",
         "budget_s": 150 if quick else 1500,
     }
